@@ -100,7 +100,17 @@ func (p *Plugin) Do(event *pipeline.Event) pipeline.ActionResult {
 	}
 
 	for _, fieldPath := range p.fieldPaths {
-		event.Root.Dig(fieldPath...).Suicide()
+		// a path addresses nested object fields only: Dig would also take a
+		// numeric name as a position inside an array and remove that element
+		node := event.Root.Node
+		for _, field := range fieldPath {
+			if node == nil || !node.IsObject() {
+				node = nil
+				break
+			}
+			node = node.Dig(field)
+		}
+		node.Suicide()
 	}
 
 	return pipeline.ActionPass
